@@ -351,13 +351,29 @@ class Check(common.Check):
         if res is None:
             self.notes.append('opcode probe failed: ' + err[-300:])
             return []
-        out = self.class_table_static() + self.pyop_static()
+        out = self.class_table_static() + self.pyop_static() + self.rate_sweep_static()
         self._opcode_probe = len(res)
         for arity, name, got in res:
             want = (opcodes_ref.UNARY if arity == 'unary' else opcodes_ref.BINARY).index(name)
             if got != want:
                 out.append({'what': f'{arity} operator {name!r} is emitted with special index {got}, the server opcode is {want}',
                             'signature': f'c01:opcode:{arity}:{name}', 'case': {'operator': name, 'arity': arity}})
+        return out
+
+    def rate_sweep_static(self):
+        """every other unit runs at the rate it was created with: for every unit class that can be
+        constructed without arguments (or with one signal), the unit in the emitted definition carries the
+        rate of the constructor used (.ar audio, .kr control, .ir scalar, .dr demand)"""
+        sw, err = common.run_impl('c01', 'class_sweep', {'mode': 'nrt'}, timeout=900)
+        if sw is None:
+            self.notes.append('class sweep failed: ' + err[-300:])
+            return []
+        self._rate_sweep = len(sw)
+        out = []
+        for name, ctor, argkind, status, want, rates in sw:
+            if status == 'ok' and want is not None and rates and any(r != want for r in rates):
+                out.append({'what': f'{name}.{ctor}(...) is emitted with rate {rates}, created at rate {want}',
+                            'signature': f'c01:created-rate:{name}', 'case': {'class': name, 'ctor': ctor}})
         return out
 
     def pyop_static(self):
@@ -463,6 +479,13 @@ class Check(common.Check):
         h['real_output_certified_by_validator'] = sum(1 for o in outs if o.get('validator_real') == 'VALID')
         h['model_output_certified_by_validator'] = sum(1 for o in outs if o.get('validator_model') == '1')
         h['validator_skipped_polynomials_too_large'] = sum(1 for o in outs if str(o.get('validator_real', '')).startswith('SKIP'))
+        # sizes of the static probes of this run (operators, class table, operator protocol forms, class sweeps ...)
+        for k in ('_opcode_probe', '_class_probe', '_pyop_probe', '_rate_sweep', '_desc_probe', '_class_sweep',
+                  '_srfirst_probe', '_invalid_sweep'):
+            if hasattr(self, k):
+                h['static' + k] = getattr(self, k)
+        h['demand_blocks'] = sum(1 for c in cases if any(e.get('cls') == 'Duty' for e in c['events']))
+        h['direct_sum_events'] = sum(1 for c in cases for e in c['events'] if e['t'] in ('sum3', 'sum4'))
         return h
 
     def shrink(self, case, fails):
